@@ -30,6 +30,7 @@ type Case struct {
 	Via     string      `json:"via,omitempty"` // twin: clone | subtree
 	Ops     []ops.Op    `json:"ops,omitempty"`
 	EditSrc bool        `json:"edit_source,omitempty"` // twin: edit the source and watch the copy
+	Mem     int         `json:"mem,omitempty"`         // > 0: the main tree is re-rooted in memory first
 }
 
 var twinKinds = []string{"reroot", "outgroup", "midpoint", "unroot", "prune", "collapse_len", "collapse_sup", "collapse_depth",
@@ -50,6 +51,9 @@ func genCase(t *rapid.T, thorough bool) Case {
 	o := baseOpts(thorough)
 	c.Sel = rapid.IntRange(0, 1000).Draw(t, "sel")
 	c.Indexed = rapid.Bool().Draw(t, "indexed")
+	if rapid.IntRange(0, 2).Draw(t, "mem") == 0 {
+		c.Mem = 1 + rapid.IntRange(0, 50).Draw(t, "memsel")
+	}
 	switch c.Kind {
 	case "graft":
 		c.Tree = gen.Tree(t, o)
@@ -221,6 +225,29 @@ func load(m *ref.Node, indexed bool) (*tree.Tree, error) {
 	return t, nil
 }
 
+// loadMain parses the case's main tree and, when the case asks for it, re-roots it in memory
+// first (the model is re-rooted alongside): the operations must cope with trees whose nodes do not
+// list their parent first.
+func loadMain(c *Case, indexed bool) (*tree.Tree, error) {
+	t, err := gt.FromModel(c.Tree)
+	if err != nil {
+		return nil, fmt.Errorf("parser rejects %s: %v", ref.Write(c.Tree), err)
+	}
+	if c.Mem > 0 {
+		rm, _, err := gt.RerootBoth(t, c.Tree, c.Mem-1)
+		if err != nil {
+			return nil, err
+		}
+		c.Tree = rm
+	}
+	if indexed {
+		if err := t.ReinitIndexes(); err != nil {
+			return nil, err
+		}
+	}
+	return t, nil
+}
+
 func check(c Case) error {
 	ctx := func(after string) string {
 		s := "\n tree " + ref.Write(c.Tree)
@@ -234,7 +261,7 @@ func check(c Case) error {
 	}
 	switch c.Kind {
 	case "graft":
-		t, err := load(c.Tree, true) // GraftTreeOnTip looks the tip up in the tip index
+		t, err := loadMain(&c, true) // GraftTreeOnTip looks the tip up in the tip index
 		if err != nil {
 			return err
 		}
@@ -328,7 +355,7 @@ func check(c Case) error {
 		}
 		return tipSetIs(after, append(c.Tree.Tips(), c.Other.Tips()...), "merge")
 	case "identical":
-		t, err := load(c.Tree, true) // ExistsTip needs the tip index, as cmd/addtips.go prepares it
+		t, err := loadMain(&c, true) // ExistsTip needs the tip index, as cmd/addtips.go prepares it
 		if err != nil {
 			return err
 		}
@@ -397,7 +424,7 @@ func check(c Case) error {
 		}
 		return tipSetIs(after, all, "identical tips")
 	case "single":
-		t, err := load(c.Tree, c.Indexed)
+		t, err := loadMain(&c, c.Indexed)
 		if err != nil {
 			return err
 		}
@@ -428,7 +455,7 @@ func check(c Case) error {
 		}
 		return tipSetIs(after, c.Tree.Tips(), "single nodes")
 	case "subtree":
-		t, err := load(c.Tree, c.Indexed)
+		t, err := loadMain(&c, c.Indexed)
 		if err != nil {
 			return err
 		}
@@ -462,7 +489,7 @@ func check(c Case) error {
 		}
 		return nil
 	case "clone":
-		t, err := load(c.Tree, c.Indexed)
+		t, err := loadMain(&c, c.Indexed)
 		if err != nil {
 			return err
 		}
